@@ -20,3 +20,33 @@ package models
 //@   loop 1 invariant forall(j, 0, rangeindex+1, vecOK(q.And[j], schema))
 //@   loop 2 invariant rangeindex >= -1 && rangeindex < len(q.Or)
 //@   loop 2 invariant forall(j, 0, rangeindex+1, vecOK(q.Or[j], schema))
+
+// ---- request validation (property C18): a query that passes Validate has had every option
+// block it carries checked by that block's own validator, and the vector option validators
+// accept only the documented ranges (so the index code never sees a limit < 1 or a search
+// window smaller than the limit).
+//@ func (Query).Validate
+//@   property C18
+//@   pure
+//@   safety -overflow
+//@   ensures result == nil && q.VectorFlat != nil ==> callres(Validate, 1, 0) == nil && callarg(Validate, 1, 0) == *q.VectorFlat
+//@   ensures result == nil && q.VectorVamana != nil ==> callres(Validate, 2, 0) == nil && callarg(Validate, 2, 0) == *q.VectorVamana
+//@   ensures result == nil && q.Text != nil ==> callres(Validate, 3, 0) == nil && callarg(Validate, 3, 0) == *q.Text
+//@   ensures result == nil && q.String != nil ==> callres(Validate, 4, 0) == nil && callarg(Validate, 4, 0) == *q.String
+//@   ensures result == nil && q.Integer != nil ==> callres(Validate, 5, 0) == nil && callarg(Validate, 5, 0) == *q.Integer
+//@   ensures result == nil && q.Float != nil ==> callres(Validate, 6, 0) == nil && callarg(Validate, 6, 0) == *q.Float
+//@   ensures result == nil && q.StringArray != nil ==> callres(Validate, 7, 0) == nil && callarg(Validate, 7, 0) == *q.StringArray
+//@   ensures result == nil ==> len(q.Property) > 0
+//@   loop 1 invariant rangeindex >= -1 && rangeindex < len(q.And)
+//@   loop 2 invariant rangeindex >= -1 && rangeindex < len(q.Or)
+//@   loop 3 invariant rangeindex >= -1 && rangeindex < len(q.StringArray.Value)
+//@ func (SearchVectorVamanaOptions).Validate
+//@   property C18
+//@   pure
+//@   safety -overflow
+//@   ensures result == nil ==> len(o.Vector) >= 1 && len(o.Vector) <= 4096 && o.Limit >= 1 && o.Limit <= 75 && o.SearchSize >= 25 && o.SearchSize <= 75 && o.SearchSize >= o.Limit && o.Operator == "near"
+//@ func (SearchVectorFlatOptions).Validate
+//@   property C18
+//@   pure
+//@   safety -overflow
+//@   ensures result == nil ==> len(o.Vector) >= 1 && len(o.Vector) <= 4096 && o.Limit >= 1 && o.Limit <= 75 && o.Operator == "near"
